@@ -8,7 +8,7 @@ CONSTANTS
   NewUntil = 4
   MaxLen = 12
 INIT Init
-NEXT Next
+NEXT NextSim
 VIEW View
 INVARIANTS TypeOK LawsHold
 INVARIANT EmitAtEnd
